@@ -222,9 +222,9 @@ class IterEngine(Engine):
         snap_total = 0             # sum of the costs in that snapshot
         pending = {}               # shard -> write events not yet drained into the policy
         settled = None             # True after a fully draining run_maintenance, until the next write
-        acct_ok = True             # no partially draining run_maintenance so far: with more than 16 pending
-        #                            writes in a shard the policy can hold a stale cost and current_cost drifts;
-        #                            that is property C13's subject, so cost clauses stop being judged here
+        acct_ok = True             # current_cost is judged throughout: since /repo 496bcb6 (F-18) capacity cleanup
+        #                            subtracts what it actually removed, so a partially draining run_maintenance
+        #                            (> 16 pending writes in a shard, stale policy cost) no longer makes it drift
 
         def expired(e, t):
             return (e["exp"] is not None and t >= e["exp"]) or (tti > 0 and t >= e["la"] + tti)
@@ -382,8 +382,6 @@ class IterEngine(Engine):
                 pending = {s: max(0, p - DRAIN_LIMIT) for s, p in pending.items()}
                 if cap > 0:
                     settled = drained
-                    if not drained:
-                        acct_ok = False
                     # evictions are possible when over capacity - or whenever the accounting may have
                     # drifted (partial drain): then current_cost is not the resident cost any more
                     if not acct_ok or sum(e["c"] for e in ents.values()) > cap:
